@@ -330,3 +330,54 @@ class ConnectionInit:
                 and _trace[1] == ("connect", 41, (spinnaker_host, port)) and _trace[2] == ("seqs",)
                 and self_post.sock.ident == 41 and self_post.seq.ident == 42
                 and self_post.n_tries == n_tries and self_post.default_timeout == timeout)
+
+
+# ---- send_scp: one command as a burst of one, the reply decoded with the number of arguments the caller expects ---------------------
+def _burst_rec(E, obj, args, kwargs, st, node):
+    from pyvc.values import ListV as _L, NONE as _N
+    call = args[2].items[0]
+    f = call.fields if hasattr(call, "fields") else None
+    vals = tuple(f[k] for k in ("x", "y", "p", "cmd", "arg1", "arg2", "arg3", "data", "timeout")) if f is not None else tuple(call[:8]) + (call[9],)
+    cb = f["callback"] if f is not None else call[8]
+    s = st.copy()
+    s.trace = _L(s.trace.items + (("burst", args[0], args[1], len(args[2].items)) + vals,))
+    # the burst calls the one command's callback once with the reply: evaluated as `<the caller's variable holding it>.__call__(g_raw)`
+    # so that what the callback object remembers is visible to the caller afterwards
+    import ast as _ast
+    name = next(k for k, v in st.env.items() if v is cb)
+    expr = _ast.parse("%s.__call__(g_raw)" % name, mode="eval").body
+    for n_ in _ast.walk(expr):
+        _ast.copy_location(n_, node)
+    return [(s2, _N, None) for s2, _v in E.ev(expr, s)]
+
+
+def _parse_rec(E, args, kwargs, st, node):
+    from pyvc.values import ListV as _L, ObjV as _O
+    s = st.copy()
+    s.trace = _L(s.trace.items + (("decoded",) + tuple(a for a in args if not hasattr(a, "node")) + tuple(sorted(kwargs.items())),))
+    return [(s, _O("SCPPacket", {"ident": 51}))]
+
+
+@contract("rig/machine_control/scp_connection.py::SCPConnection.send_scp")
+class SendScpIsABurstOfOne:
+    """send_scp is a burst of exactly ONE command with window 1 and the caller's buffer size: the command carries exactly the
+    destination, command, arguments, data and extra timeout given; what comes back is that command's reply decoded with the
+    number of arguments the caller expects"""
+    properties = ("C06",)
+    params = dict(self=TRec("SCPConnection"), buffer_size=TInt(1, 65535), x=TInt(0, 255), y=TInt(0, 255), p=TInt(0, 31), cmd=TInt(0, 255),
+                  arg1=TInt(0, 2 ** 32 - 1), arg2=TInt(0, 2 ** 32 - 1), arg3=TInt(0, 2 ** 32 - 1), data=TRec("Bytes", ident=TInt(0, 9)),
+                  expected_args=TInt(0, 3), timeout=TReal(), g_raw=TRec("Bytes", ident=TInt(10, 19)))
+    externals = {"SCPConnection.send_scp_burst": _burst_rec, "def:from_bytestring": _parse_rec}
+    assumptions = ["send_scp_burst (bounded layer + its step contracts) is recorded and calls the one callback once with the reply (ghost g_raw); "
+                   "SCPPacket.from_bytestring (C15) is recorded"]
+
+    def native(x):
+        raise __import__("pyvc.replay", fromlist=["OutsideHarness"]).OutsideHarness()
+
+    def ensures_one_command_as_given_and_its_reply_decoded_as_expected(buffer_size, x, y, p, cmd, arg1, arg2, arg3, data, expected_args, timeout,
+                                                                       g_raw, result, _trace):
+        return (len(_trace) == 2 and _trace[0][:4] == ("burst", buffer_size, 1, 1)
+                and _trace[0][4:8] == (x, y, p, cmd) and _trace[0][8:11] == (arg1, arg2, arg3)
+                and _trace[0][11].ident == data.ident and _trace[0][12] == timeout
+                and _trace[1][0] == "decoded" and _trace[1][1].ident == g_raw.ident and _trace[1][2] == ("n_args", expected_args)
+                and result.ident == 51)
